@@ -51,10 +51,13 @@ struct PRoot;
 template <typename Receiver>
 static void as_probe(PWorld* w, const std::string& label, const Receiver& r) {
   long roots = 0, chain = 0;
-#if !UNIFEX_NO_ASYNC_STACKS
+  // counted in EVERY build: sync_wait installs its initial root + frame even when async stacks are compiled out
   AsyncStackRoot* root = tryGetCurrentAsyncStackRoot();
-  if (!root) w->emit("!!asroot-missing@" + label);
-  else {
+  if (!root) {
+#if !UNIFEX_NO_ASYNC_STACKS
+    w->emit("!!asroot-missing@" + label);
+#endif
+  } else {
     for (const AsyncStackRoot* q = root; q; q = q->getNextRoot()) if (++roots > 100000) { w->emit("!!asroot-cycle@" + label); break; }
     AsyncStackFrame* f = root->getTopFrame();
     if (!f) w->emit("!!asframe-missing@" + label);
@@ -63,9 +66,6 @@ static void as_probe(PWorld* w, const std::string& label, const Receiver& r) {
       for (AsyncStackFrame* p = f; p; p = p->getParentFrame()) if (++chain > 100000) { w->emit("!!aschain-cycle@" + label); break; }
     }
   }
-#else
-  if (tryGetCurrentAsyncStackRoot() != nullptr) w->emit("!!asroot-without-async-stacks@" + label);
-#endif
   auto trace = async_trace(r);
   bool path = true;
   for (size_t i = 0; i < trace.size(); ++i) if (trace[i].depth != i || (i > 0 && trace[i].parentIndex != i - 1)) path = false;
